@@ -117,6 +117,7 @@ class Module:
         self.defs = kw.get("defs", {})          # name -> ([argsorts], ret) for functions defined in defs_text
         self.defs_text = kw.get("defs_text", "")  # (define-fun ...) text emitted after declarations
         self.predeclared_opts = kw.get("predeclared_opts", [])  # Opt sorts whose datatype the prelude declares itself
+        self.declare_stable = kw.get("declare_stable", False)  # pre-declare sattr_<a>(Ref) for every stable attribute
         self.hooks = kw.get("hooks", {})       # binop / cmp / subscript / hetero_list / dict / isinstance
         self.skip_calls = kw.get("skip_calls", ["self.log", "logger.", "log.", "warnings.warn", "print"])
 
@@ -132,6 +133,7 @@ class EngineBase:
         self.try_depth = 0
         self.sites_seen = set()
         self.path_outcomes = []
+        self.return_paths = {}
 
     # ------------------------------------------------------------------ choice
     def choice(self, n, label=""):
@@ -233,6 +235,7 @@ class EngineBase:
             return t
         if t.sort == NONE:
             return self.ctx.app("none_obj", [], OBJ, [])
+        self.box_axiom(t.sort)
         return self.ctx.app("box_" + mangle(t.sort), [t.sort], OBJ, [t])
 
     def coerce(self, t, sort, what=""):
@@ -264,8 +267,9 @@ class EngineBase:
             if t.sort == sort[1]:
                 return some(self.ctx, t)
             if t.sort == OBJ:
-                self.note("havoc-coerce", f"{what}: Obj -> {sort}")
-                return self.opaque("coerced", sort)
+                isn = self.ctx.app("is_none", [OBJ], BOOL, [t])
+                inner = self.unbox(t, sort[1])
+                return T(sort, f"(ite {isn.s} {none_of(self.ctx, sort[1]).s} {some(self.ctx, inner).s})")
             return some(self.ctx, self.coerce(t, sort[1], what))
         if isinstance(t.sort, tuple) and t.sort[0] == "Opt" and t.sort[1] == sort:
             return unopt(t)
@@ -273,8 +277,23 @@ class EngineBase:
             return self.to_obj(t)
         if sort == BOOL:
             return self.truth(t)
+        if t.sort == OBJ and sort != NONE:
+            return self.unbox(t, sort)
         self.note("havoc-coerce", f"{what}: {t.sort} -> {sort}")
         return self.opaque("coerced", sort)
+
+    def box_axiom(self, sort):
+        m = mangle(sort)
+        c = self.ctx
+        c.fun("box_" + m, [sort], OBJ)
+        c.fun("unbox_" + m, [OBJ], sort)
+        ax = f"(forall ((x {sort_smt(sort)})) (! (= (|unbox_{m}| (|box_{m}| x)) x) :pattern ((|box_{m}| x))))"
+        if ax not in c.axioms:
+            c.axioms.append(ax)
+
+    def unbox(self, t, sort):
+        self.box_axiom(sort)
+        return self.ctx.app("unbox_" + mangle(sort), [OBJ], sort, [t])
 
     def unify(self, a, b):
         if isinstance(a, EmptyV) and isinstance(b, T) and isinstance(b.sort, tuple):
